@@ -1,5 +1,6 @@
 SPECIFICATION Spec
 CONSTANTS W = {1}
+          MaxIxC = 3
 INVARIANT Inv
 PROPERTY ErrUnchanged
 CHECK_DEADLOCK FALSE
